@@ -13,6 +13,7 @@ mod c06;
 mod c17;
 mod c18;
 mod c20;
+mod mocset;
 mod gen;
 mod util;
 
@@ -42,6 +43,8 @@ fn main() {
     "C17" => c17::run(&mut sink, &mut rng, thorough),
     "C18" => c18::run(&mut sink, &mut rng, thorough),
     "C20" => c20::run(&mut sink, &mut rng, thorough),
+    "C14" => mocset::histories(&mut sink, &mut rng, thorough, &dir.join("work")),
+    "C15" => mocset::queries(&mut sink, &mut rng, thorough, &dir.join("work")),
     _ => {
       eprintln!("unknown property {}", prop);
       std::process::exit(2);
